@@ -32,6 +32,20 @@ def gamma_frame(fr: dict, index_kind: str = "default", text_dtype: str = "object
     return df
 
 
+def arrow_table(df, nan_not_null: bool = False):
+    """pandas frame -> pyarrow table; with nan_not_null the missing values of float columns stay NaN values instead of becoming
+    Arrow nulls (both are 'missing' to pandas; an Arrow table can hold either)."""
+    import pyarrow
+
+    if not nan_not_null:
+        return pyarrow.Table.from_pandas(df, preserve_index=False)
+    cols = {}
+    for name in df.columns:
+        s = df[name]
+        cols[name] = pyarrow.array(s.to_numpy(), from_pandas=False) if s.dtype.kind == "f" else pyarrow.array(s, from_pandas=True)
+    return pyarrow.table(cols)
+
+
 def index_for(n: int, kind: str):
     if kind == "default":
         return pandas.RangeIndex(n)
